@@ -72,7 +72,10 @@ func main() {
 	src := flag.String("src", "/repo", "repository working tree")
 	dst := flag.String("dst", "", "scratch directory (must exist and be empty)")
 	tools := flag.String("tools", "/verif/tools", "verification tools directory")
-	pins := flag.Bool("pins", true, "rename hashString/makeSeed and add access files")
+	pins := flag.Bool("pins", true, "rename hashString/makeSeed and add the layout-pinning access files")
+	cpins := flag.Bool("cpins", true, "add the CacheOf layout-pinning access file (package cache)")
+	phys := flag.Bool("phys", true, "add the physical-items access file (package cache)")
+	project := flag.Bool("project", true, "add the table-projection access files")
 	noshim := flag.Bool("noshim", false, "copy only (no import substitution; for the -race build of C14)")
 	flag.Parse()
 	if *dst == "" {
@@ -142,15 +145,17 @@ func main() {
 	if *noshim {
 		// the -race observer of C14: the repository's own compiled code, no shims
 		must(copyDir(filepath.Join(*tools, "raceharness"), filepath.Join(zz, "harness")))
-		for _, f := range []string{"api.go", "events.go", "access_off.go", "keytypes.go"} {
+		for _, f := range []string{"api.go", "events.go", "access_common.go", "access_pins_off.go", "access_cpins_off.go", "access_phys_off.go", "access_proj_off.go", "keytypes.go"} {
 			must(copyFile(filepath.Join(*tools, "harness", f), filepath.Join(zz, "harness", f)))
 		}
 	} else {
 		must(copyDir(filepath.Join(*tools, "harness"), filepath.Join(zz, "harness")))
 	}
 	if *pins && !*noshim {
-		must(copyFile(filepath.Join(*tools, "access", "xsync_access.go.txt"), filepath.Join(*dst, "internal", "xsync", "zz_verif_access.go")))
-		must(copyFile(filepath.Join(*tools, "access", "cache_access.go.txt"), filepath.Join(*dst, "zz_verif_access.go")))
+		must(copyFile(filepath.Join(*tools, "access", "xsync_pins.go.txt"), filepath.Join(*dst, "internal", "xsync", "zz_verif_pins_access.go")))
+		if *cpins {
+			must(copyFile(filepath.Join(*tools, "access", "cache_pins.go.txt"), filepath.Join(*dst, "zz_verif_cpins_access.go")))
+		}
 		// wrappers only for the functions that were actually found and renamed
 		var w bytes.Buffer
 		w.WriteString("package xsync\n\n")
@@ -160,7 +165,14 @@ func main() {
 		if renamed["makeSeed"] {
 			w.WriteString("func makeSeed() uint64 {\n\tif VerifMakeSeed != nil {\n\t\treturn VerifMakeSeed()\n\t}\n\treturn makeSeed_orig()\n}\n")
 		}
-		must(os.WriteFile(filepath.Join(*dst, "internal", "xsync", "zz_verif_pins.go"), w.Bytes(), 0o644))
+		must(os.WriteFile(filepath.Join(*dst, "internal", "xsync", "zz_verif_pins_wrappers.go"), w.Bytes(), 0o644))
+	}
+	if *phys && !*noshim {
+		must(copyFile(filepath.Join(*tools, "access", "cache_phys.go.txt"), filepath.Join(*dst, "zz_verif_phys_access.go")))
+	}
+	if *project && !*noshim {
+		must(copyFile(filepath.Join(*tools, "access", "xsync_project.go.txt"), filepath.Join(*dst, "internal", "xsync", "zz_verif_project_access.go")))
+		must(copyFile(filepath.Join(*tools, "access", "cache_project.go.txt"), filepath.Join(*dst, "zz_verif_project_access.go")))
 	}
 	sort.Slice(sites, func(i, j int) bool {
 		if sites[i].File != sites[j].File {
